@@ -12,6 +12,7 @@ import (
 	libshare "github.com/celestiaorg/go-square/v4/share"
 	"github.com/celestiaorg/rsmt2d"
 
+	"github.com/celestiaorg/celestia-node/libs/verifhook"
 	"github.com/celestiaorg/celestia-node/share"
 	"github.com/celestiaorg/celestia-node/share/eds"
 	"github.com/celestiaorg/celestia-node/share/shwap"
@@ -95,6 +96,7 @@ func (odsq4 *ODSQ4) tryLoadQ4() *q4 {
 		return odsq4.q4
 	}
 
+	verifhook.PointKV("odsq4.before-open-q4", odsq4.pathQ4)
 	q4, err := openQ4(odsq4.pathQ4, odsq4.ods.hdr)
 	// store q4 opened bool before updating atomic value to allow next read attempts to use it
 	odsq4.q4 = q4
